@@ -182,6 +182,8 @@ def auto_rename_variants(prop: str) -> list[dict]:
                 locals_.append(n.id)
         for name in locals_:
             out.append({"prop": prop, "kind": "silent", "name": f"auto: local `{name}` of {q.split(':')[1]} renamed", "auto": (q, name), "source": "auto-rename"})
+        for tr in ("annassign", "augexpand", "logline"):
+            out.append({"prop": prop, "kind": "silent", "name": f"auto: {tr} in {q.split(':')[1]}", "auto": (q, f"#{tr}"), "source": "auto-transform"})
     return out
 
 
@@ -196,6 +198,8 @@ def _overlay_auto(v: dict) -> dict[str, str] | None:
     fi = prog.funcs[q]
     new = f"{name}_rn"
     tree = _ast.parse(fi.module.source)
+    if name.startswith("#"):
+        return _overlay_transform(fi, tree, name[1:])
     target = None
     for n in _ast.walk(tree):
         if isinstance(n, (_ast.FunctionDef, _ast.AsyncFunctionDef)) and n.name == fi.node.name and n.lineno == fi.node.lineno:
@@ -212,6 +216,52 @@ def _overlay_auto(v: dict) -> dict[str, str] | None:
             pass
         elif isinstance(n, _ast.keyword) and False:
             pass
+    return {fi.module.relpath: _ast.unparse(tree)}
+
+
+def _overlay_transform(fi, tree, kind: str) -> dict[str, str] | None:
+    """Behaviour-preserving rewrites of one function: annotated assignments, expanded augmented assignments, an extra log line."""
+    import ast as _ast
+    target = None
+    for n in _ast.walk(tree):
+        if isinstance(n, (_ast.FunctionDef, _ast.AsyncFunctionDef)) and n.name == fi.node.name and n.lineno == fi.node.lineno:
+            target = n
+    if target is None:
+        return None
+    changed = False
+
+    class T(_ast.NodeTransformer):
+        def visit_FunctionDef(self, node):  # noqa: N802
+            if node is not target:
+                return node
+            self.generic_visit(node)
+            return node
+
+        def visit_Assign(self, node):  # noqa: N802
+            nonlocal changed
+            if kind == "annassign" and len(node.targets) == 1 and isinstance(node.targets[0], _ast.Name):
+                changed = True
+                return _ast.AnnAssign(target=node.targets[0], annotation=_ast.Name(id="object", ctx=_ast.Load()), value=node.value, simple=1)
+            return node
+
+        def visit_AugAssign(self, node):  # noqa: N802
+            nonlocal changed
+            if kind == "augexpand" and isinstance(node.target, (_ast.Name, _ast.Attribute)):
+                changed = True
+                load = _ast.parse(_ast.unparse(node.target), mode="eval").body
+                return _ast.Assign(targets=[node.target], value=_ast.BinOp(left=load, op=node.op, right=node.value), lineno=node.lineno)
+            return node
+
+    T().visit(target)
+    if kind == "logline":
+        body = target.body
+        pos = 1 if body and isinstance(body[0], _ast.Expr) and isinstance(body[0].value, _ast.Constant) else 0
+        # not inside generators that are context managers before the first statement? a print is harmless anywhere
+        body.insert(pos, _ast.parse("print('trace')").body[0])
+        changed = True
+    if not changed:
+        return None
+    _ast.fix_missing_locations(tree)
     return {fi.module.relpath: _ast.unparse(tree)}
 
 
